@@ -53,6 +53,13 @@ func (e *Engine) typeOfTag(id int64) types.Type { return e.tagTypes[id] }
 func (e *Engine) tagByName(name string) int64 {
 	star := strings.HasPrefix(name, "*")
 	n := strings.TrimPrefix(name, "*")
+	if tn, ok := types.Universe.Lookup(n).(*types.TypeName); ok {
+		var t types.Type = tn.Type()
+		if star {
+			t = types.NewPointer(t)
+		}
+		return e.typeTag(t)
+	}
 	dot := strings.LastIndex(n, ".")
 	if dot < 0 {
 		specFail("typeis: need pkg.Type, got %q", name)
